@@ -1,6 +1,9 @@
 use noodles_bgzf as bgzf;
 use tokio::io::{self, AsyncRead, AsyncReadExt};
 
+// The count comes from the input: use it as a capacity hint only up to this bound.
+const MAX_PREALLOCATED_LEN: usize = 1 << 16;
+
 pub(super) async fn read_intervals<R>(reader: &mut R) -> io::Result<Vec<bgzf::VirtualPosition>>
 where
     R: AsyncRead + Unpin,
@@ -10,7 +13,7 @@ where
         usize::try_from(n).map_err(|e| io::Error::new(io::ErrorKind::InvalidData, e))
     })?;
 
-    let mut intervals = Vec::with_capacity(interval_count);
+    let mut intervals = Vec::with_capacity(interval_count.min(MAX_PREALLOCATED_LEN));
 
     for _ in 0..interval_count {
         // ioff
